@@ -68,8 +68,21 @@ let () =
            let c = ref c in
            let st = ref (init_state fops !c) in
            let outs = ref [] in
+           (* multiple replicas: one mirror object for the hills received from the other walkers ("F n hill*n" before the
+              step at which they are read: update_grid_data projects the mirror, then replica_share adds the hills) *)
+           let mirror = ref (init_state fops !c) in
+           let pending = ref [] in
+           let repl = ref false in
            for _ = 1 to nev do
              match next () with
+             | "F" ->
+               let k = ni () in
+               repl := true;
+               pending := !pending @ List.init k (fun _ ->
+                   let it = ni () in let w = nf () in
+                   let cx = List.map (fun n -> List.init n (fun _ -> nf ())) ncomp in
+                   let sg = List.init nd (fun _ -> nf ()) in
+                   { h_it = z_of_int it; h_W = w; h_c = cx; h_s = sg })
              | "W" -> st := save_state fops !c !st
              | "P" ->
                (* write_pmf at temperature T: one value per bin, in the order of the array *)
@@ -102,6 +115,14 @@ let () =
                let i = { i_it = z_of_int it; i_rel = z_of_int rel; i_cont = cont; i_x = x } in
                let (s', (e, f)) = step fops !c !st i in
                st := s';
+               let (e, f) =
+                 if not !repl then (e, f) else begin
+                   if ug && (it mod (int_of_z (!c).c_gfreq) = 0) then mirror := mirror_apply fops !c !mirror MProj;
+                   List.iter (fun h -> mirror := mirror_apply fops !c !mirror (MAdd h)) !pending;
+                   pending := [];
+                   (total_energy fops !c s' [!mirror] x,
+                    List.mapi (fun k n -> List.init n (fun j -> total_force fops !c s' [!mirror] x (nat_of_int k) (nat_of_int j))) ncomp)
+                 end in
                let b = Buffer.create 256 in
                Buffer.add_string b (Printf.sprintf "S %s %s" (hex e) (String.concat " " (List.map hex (List.concat f))));
                Buffer.add_string b (Printf.sprintf " ; H %d %d %s" (List.length s'.st_old) (List.length s'.st_new)
